@@ -205,9 +205,12 @@ def replay_trigger(unit, obl, reduced=False):
     # screening: at EVERY Euler step inside the self-consistency loop the operators must hold applied + induced potential of that
     # iteration.  The real update() is driven; adaptive_euler_step is wrapped (on the instance) and reads the caller's locals.
     import sys as _sys
-    for offset in (() if reduced else ((0.0, 0.0), (-2.5, 1.5), (-12.5, 7.5))):
+    for offset in (() if reduced else ((0.0, 0.0), (-2.5, 1.5), (-12.5, 7.5), "ramp")):
         def field(x, y, z, offset=offset):
             return np.stack([-0.5 * y + offset[0], 0.5 * x + offset[1], 0 * x], axis=1)
+        if offset == "ramp":
+            # screening AND a time-dependent applied field: the operators hold applied(t) + induced at every Euler step of every screening iteration
+            field = LinearRamp(tmin=0.0, tmax=0.3) * ConstantField(0.6, field_units="mT", length_units="um")
         opts = tdgl.SolverOptions(solve_time=1, include_screening=True, adaptive=False, dt_init=1e-2, field_units="mT")
         s = TDGLSolver(dev, opts, applied_vector_potential=field)
         real_step = s.adaptive_euler_step
@@ -223,6 +226,8 @@ def replay_trigger(unit, obl, reduced=False):
         state = dict(step=0, time=0.0, dt=opts.dt_init)
         vals = dict(psi=s.psi_init, mu=s.mu_init, supercurrent=np.zeros(s.num_edges), normal_current=np.zeros(s.num_edges),
                     induced_vector_potential=np.zeros((s.num_edges, 2)))
+        if s.dynamic_vector_potential:
+            vals["applied_vector_potential"] = s.current_A_applied
         dt = opts.dt_init
         for step in range(40):
             state.update(step=step)
@@ -238,6 +243,8 @@ def replay_trigger(unit, obl, reduced=False):
                 break
             vals = dict(psi=res.psi, mu=res.mu, supercurrent=res.supercurrent, normal_current=res.normal_current,
                         induced_vector_potential=res.A_induced)
+            if s.dynamic_vector_potential:
+                vals["applied_vector_potential"] = res.A_applied
             dt = res.dt
             state["time"] += dt
     logging.disable(logging.NOTSET)
